@@ -124,15 +124,21 @@ def check_grid(ctx, drv, pend, G, conf, label):
             if col[0] < -z[0] < col[-1]:
                 ctx.oracle(col[K_ - 1] <= -z[0] <= col[K_] and abs(A_ * col[K_ - 1] + (1 - A_) * col[K_] + z[0]) <= 1e-9 * (1 + abs(z[0])),
                            "C15.z2s.bracket", SITE + "::z2s", "K=%d A=%r do not bracket / reproduce depth %r" % (K_, A_, z[0]), cs)
-    # xy2ll / ll2xy
-    Xi = np.array([ctx.rng.uniform(g.xmin, g.xmax) for _ in range(10)]); Yi = np.array([ctx.rng.uniform(g.ymin, g.ymax) for _ in range(10)])
+    # xy2ll / ll2xy: mutual inverses inside the grid (to 1e-6 of a cell: both maps are smooth and well conditioned)
+    npt = 60
+    Xi = np.array([ctx.rng.uniform(g.xmin, g.xmax) for _ in range(npt)]); Yi = np.array([ctx.rng.uniform(g.ymin, g.ymax) for _ in range(npt)])
+    # targets close to the centre of the grid (the solver's initial guess) included
+    Xi[:6] = 0.5 * (g.xmin + g.xmax) + np.array([0.0, 0.17, -0.1, 0.3, -0.33, 0.05]); Yi[:6] = 0.5 * (g.ymin + g.ymax) + np.array([0.0, 0.03, 0.2, -0.25, 0.1, -0.02])
     lon, lat = g.xy2ll(Xi, Yi)
     try:
         xb, yb = g.ll2xy(lon, lat)
-        ctx.oracle(np.allclose(xb, Xi, atol=1e-3) and np.allclose(yb, Yi, atol=1e-3), "C15.ll2xy.not_inverse", SITE + "::Grid.ll2xy",
-                   "ll2xy(xy2ll(x,y)) differs by %r" % float(np.abs(xb - Xi).max()), dict(grid=label))
+        dev = np.maximum(np.abs(xb - Xi), np.abs(yb - Yi))
+        k = int(np.argmax(dev))
+        ctx.oracle(bool(dev.max() <= 1e-6), "C15.ll2xy.not_inverse", SITE + "::Grid.ll2xy",
+                   "ll2xy(xy2ll(x, y)) = (%r, %r) for (x, y) = (%r, %r): off by %.3g grid cells" % (xb[k], yb[k], Xi[k], Yi[k], dev.max()),
+                   dict(grid=label, x=Xi[k], y=Yi[k]))
     except Exception as e:
-        ctx.note("ll2xy raised %r on %s" % (e, label))
+        ctx.oracle(False, "C15.ll2xy.raises", SITE + "::Grid.ll2xy", "ll2xy raised %r on %s" % (e, label), dict(grid=label))
     f.close()
 
 
